@@ -97,6 +97,7 @@ theorem good_stopCleaned : ∀ s s' : St, Good s → step s .stopCleaned = some 
 theorem good_tick : ∀ s s' : St, Good s → step s .tick = some s' → Good s' := by lc_good
 theorem good_send : ∀ s s' : St, Good s → step s .send = some s' → Good s' := by lc_good
 theorem good_sendError : ∀ s s' : St, Good s → step s .sendError = some s' → Good s' := by lc_good
+theorem good_selfClose : ∀ s s' : St, Good s → step s .selfClose = some s' → Good s' := by lc_good
 theorem good_abortSeen : ∀ s s' : St, Good s → step s .abortSeen = some s' → Good s' := by lc_good
 theorem good_callRpc : ∀ s s' : St, Good s → step s .callRpc = some s' → Good s' := by lc_good
 theorem good_rpcNotActive : ∀ s s' : St, Good s → step s .rpcNotActive = some s' → Good s' := by lc_good
@@ -146,6 +147,7 @@ theorem good_step {s s' : St} {e : Ev} (h : Good s) (hs : step s e = some s') : 
   | send => exact good_send s s' h hs
   | sendError => exact good_sendError s s' h hs
   | abortSeen => exact good_abortSeen s s' h hs
+  | selfClose => exact good_selfClose s s' h hs
   | callRpc => exact good_callRpc s s' h hs
   | rpcNotActive => exact good_rpcNotActive s s' h hs
   | rpcPass => exact good_rpcPass s s' h hs
@@ -216,6 +218,7 @@ theorem goodE_stopCleaned : ∀ s s' : St, Good s → GoodE s → envOK s .stopC
 theorem goodE_tick : ∀ s s' : St, Good s → GoodE s → envOK s .tick = true → step s .tick = some s' → GoodE s' := by lc_goodE
 theorem goodE_send : ∀ s s' : St, Good s → GoodE s → envOK s .send = true → step s .send = some s' → GoodE s' := by lc_goodE
 theorem goodE_sendError : ∀ s s' : St, Good s → GoodE s → envOK s .sendError = true → step s .sendError = some s' → GoodE s' := by lc_goodE
+theorem goodE_selfClose : ∀ s s' : St, Good s → GoodE s → envOK s .selfClose = true → step s .selfClose = some s' → GoodE s' := by lc_goodE
 theorem goodE_abortSeen : ∀ s s' : St, Good s → GoodE s → envOK s .abortSeen = true → step s .abortSeen = some s' → GoodE s' := by lc_goodE
 theorem goodE_callRpc : ∀ s s' : St, Good s → GoodE s → envOK s .callRpc = true → step s .callRpc = some s' → GoodE s' := by lc_goodE
 theorem goodE_rpcNotActive : ∀ s s' : St, Good s → GoodE s → envOK s .rpcNotActive = true → step s .rpcNotActive = some s' → GoodE s' := by lc_goodE
@@ -266,6 +269,7 @@ theorem goodE_step {s s' : St} {e : Ev} (h : Good s) (he : GoodE s) (hok : envOK
   | send => exact goodE_send s s' h he hok hs
   | sendError => exact goodE_sendError s s' h he hok hs
   | abortSeen => exact goodE_abortSeen s s' h he hok hs
+  | selfClose => exact goodE_selfClose s s' h he hok hs
   | callRpc => exact goodE_callRpc s s' h he hok hs
   | rpcNotActive => exact goodE_rpcNotActive s s' h he hok hs
   | rpcPass => exact goodE_rpcPass s s' h he hok hs
@@ -332,6 +336,7 @@ theorem goodW_stopCleaned : ∀ s s' : St, Good s → GoodW s → Ev.wf .stopCle
 theorem goodW_tick : ∀ s s' : St, Good s → GoodW s → Ev.wf .tick = true → step s .tick = some s' → GoodW s' := by lc_goodW
 theorem goodW_send : ∀ s s' : St, Good s → GoodW s → Ev.wf .send = true → step s .send = some s' → GoodW s' := by lc_goodW
 theorem goodW_sendError : ∀ s s' : St, Good s → GoodW s → Ev.wf .sendError = true → step s .sendError = some s' → GoodW s' := by lc_goodW
+theorem goodW_selfClose : ∀ s s' : St, Good s → GoodW s → Ev.wf .selfClose = true → step s .selfClose = some s' → GoodW s' := by lc_goodW
 theorem goodW_abortSeen : ∀ s s' : St, Good s → GoodW s → Ev.wf .abortSeen = true → step s .abortSeen = some s' → GoodW s' := by lc_goodW
 theorem goodW_callRpc : ∀ s s' : St, Good s → GoodW s → Ev.wf .callRpc = true → step s .callRpc = some s' → GoodW s' := by lc_goodW
 theorem goodW_rpcNotActive : ∀ s s' : St, Good s → GoodW s → Ev.wf .rpcNotActive = true → step s .rpcNotActive = some s' → GoodW s' := by lc_goodW
@@ -397,6 +402,7 @@ theorem goodW_step {s s' : St} {e : Ev} (hg : Good s) (hw : GoodW s) (hwf : e.wf
   | send => exact goodW_send s s' hg hw hwf hs
   | sendError => exact goodW_sendError s s' hg hw hwf hs
   | abortSeen => exact goodW_abortSeen s s' hg hw hwf hs
+  | selfClose => exact goodW_selfClose s s' hg hw hwf hs
   | callRpc => exact goodW_callRpc s s' hg hw hwf hs
   | rpcNotActive => exact goodW_rpcNotActive s s' hg hw hwf hs
   | rpcPass => exact goodW_rpcPass s s' hg hw hwf hs
